@@ -50,6 +50,20 @@ type Case struct {
 	Attacks []Attack `json:"attacks"`
 	Bytes   bool     `json:"bytes,omitempty"` // hand the proof bytes to the model (layout parse, alterations)
 	Tr      []TrSpec `json:"transcripts,omitempty"`
+	// Level tinkp: the keyset's keys (output prefix type of each), which one is primary now, which one signed
+	Kinds   []string `json:"kinds,omitempty"`
+	Primary int      `json:"primary,omitempty"`
+	Signer  int      `json:"signer,omitempty"`
+	// Long marks vectors of more than 256 messages (generator index bookkeeping beyond one byte)
+	Long bool `json:"long,omitempty"`
+}
+
+func signerKind(c *Case) string {
+	if c.Level == "tinkp" && c.Signer < len(c.Kinds) {
+		return c.Kinds[c.Signer]
+	}
+
+	return "RAW"
 }
 
 const legacyID = 9999
@@ -222,6 +236,8 @@ type Obs struct {
 	KeyPrefix  []int    `json:"key_prefix,omitempty"`   // the bytes the keyset put in front of the signature
 	ProofPfx   []int    `json:"proof_prefix,omitempty"` // ... and in front of the derived proof
 	SigChecks  []string `json:"sig_checks,omitempty"`
+	KeyPrefixes  [][]int `json:"keyset_prefixes,omitempty"` // output prefix of every key of the keyset
+	GensDistinct int     `json:"generators_distinct"`      // 0 not observed, 1 h0, h_1..h_n pairwise distinct, 2 not
 	Details    []string `json:"details,omitempty"`
 }
 
@@ -230,8 +246,8 @@ func partyOf(c *Case) party {
 		return newTink(c.Key)
 	}
 
-	if strings.HasPrefix(c.Level, "tinkp-") {
-		return newPref(strings.TrimPrefix(c.Level, "tinkp-"), c.Key)
+	if c.Level == "tinkp" {
+		return newPref(c.Kinds, c.Primary, c.Signer, c.Key)
 	}
 
 	return newPrim(c.Key)
@@ -283,6 +299,36 @@ func runCaseOpt(kind string, c *Case, tr *hx.Trace, withCoq bool) {
 
 	if isPref {
 		pfxLen = pp.prefixLen()
+
+		for _, pf := range pp.prefixes {
+			ints := []int{}
+			for _, b := range pf {
+				ints = append(ints, int(b))
+			}
+
+			obs.KeyPrefixes = append(obs.KeyPrefixes, ints)
+		}
+	}
+
+	// the generators h0, h_1..h_n of the key must be pairwise distinct (positions are bound by them)
+	if prim, ok := p.(*primParty); ok {
+		h0, hs, gerr := bbs.VerifGenerators(prim.pub, n)
+		if gerr == nil {
+			seen := map[string]int{string(h0.Bytes()): -1}
+			obs.GensDistinct = 1
+
+			for i, g := range hs {
+				if j, dup := seen[string(g.Bytes())]; dup {
+					obs.GensDistinct = 2
+
+					fail("generators-not-distinct", fmt.Sprintf("generator of message %d equals that of message %d (-1 = h0)", i, j))
+
+					break
+				}
+
+				seen[string(g.Bytes())] = i
+			}
+		}
 	}
 
 	if obs.SignVerify == vAccept && len(sig) > pfxLen {
@@ -296,6 +342,20 @@ func runCaseOpt(kind string, c *Case, tr *hx.Trace, withCoq bool) {
 		checks := []sc{{"changed-message", func() error { return p.verify(chg, sig) }},
 			{"dropped-message", func() error { return p.verify(msgsOf(c.Msgs[:len(c.Msgs)-1]), sig) }},
 			{"extra-message", func() error { return p.verify(append(msgsOf(c.Msgs), msgBytes(8001)), sig) }}}
+
+		if len(c.Msgs) > 256 { // positions i and i+256 exchanged
+			i := len(c.Msgs) % 7
+			if i+256 >= len(c.Msgs) {
+				i = 0
+			}
+
+			sw := msgsOf(c.Msgs)
+			sw[i], sw[i+256] = sw[i+256], sw[i]
+
+			if string(sw[i]) != string(sw[i+256]) {
+				checks = append(checks, sc{"swapped-256", func() error { return p.verify(sw, sig) }})
+			}
+		}
 
 		if isPref {
 			alt := append([]byte{}, sig...)
@@ -335,7 +395,7 @@ func runCaseOpt(kind string, c *Case, tr *hx.Trace, withCoq bool) {
 	}
 
 	nInner := n
-	if c.Level == "tinkp-LEGACY" {
+	if signerKind(c) == "LEGACY" {
 		nInner = n + 1 // the wrapper signs one more message
 	}
 
@@ -537,6 +597,15 @@ func classify(c *Case, o *Obs) (string, bool, []string) {
 	dist := []string{"level:" + c.Level, fmt.Sprintf("n:%d", bucket(n)), fmt.Sprintf("revealed:%d", bucket(len(c.R))),
 		fmt.Sprintf("nonce:%d", c.Nonce)}
 
+	if c.Level == "tinkp" {
+		dist = append(dist, fmt.Sprintf("tink-keyset-keys:%d", len(c.Kinds)), "tink-signer-prefix:"+signerKind(c),
+			fmt.Sprintf("tink-signer-is-primary:%v", c.Signer == c.Primary))
+	}
+
+	if c.Long {
+		dist = append(dist, "long-vector")
+	}
+
 	for _, a := range c.Attacks {
 		l := a.Kind
 		if a.Label != "" {
@@ -564,7 +633,7 @@ func classify(c *Case, o *Obs) (string, bool, []string) {
 
 	sort.Strings(ks)
 
-	cl := fmt.Sprintf("%s n=%d R=%v nonce=%d %s", c.Level, n, sortedCopy(c.R), c.Nonce, strings.Join(ks, ","))
+	cl := fmt.Sprintf("%s%v/%d/%d n=%d R=%v nonce=%d %s", c.Level, c.Kinds, c.Primary, c.Signer, n, sortedCopy(c.R), c.Nonce, strings.Join(ks, ","))
 
 	return cl, len(c.Attacks) == 0, dist
 }
@@ -646,7 +715,7 @@ func famCode(f string) int {
 }
 
 func coqCase(c *Case, o *Obs, proof []byte) string {
-	legacy := c.Level == "tinkp-LEGACY"
+	legacy := signerKind(c) == "LEGACY"
 	withLegacy := func(l []int) []int {
 		if legacy {
 			return append(append([]int{}, l...), legacyID)
@@ -674,9 +743,27 @@ func coqCase(c *Case, o *Obs, proof []byte) string {
 		att = append(att, "("+coqAttack(ca)+", "+coqVerdict(o.Verdicts[i])+")")
 	}
 
-	kindCode := map[string]string{"tinkp-TINK": "PTink", "tinkp-LEGACY": "PLegacy", "tinkp-CRUNCHY": "PCrunchy"}[c.Level]
-	if kindCode == "" {
-		kindCode = "PRaw"
+	kindCode := func(k string) string {
+		switch k {
+		case "TINK":
+			return "PTink"
+		case "LEGACY":
+			return "PLegacy"
+		case "CRUNCHY":
+			return "PCrunchy"
+		default:
+			return "PRaw"
+		}
+	}
+	ksTerm := "[{| k_kind := PRaw; k_pfx := [] |}]"
+
+	if c.Level == "tinkp" {
+		es := make([]string, len(c.Kinds))
+		for i, k := range c.Kinds {
+			es[i] = fmt.Sprintf("{| k_kind := %s; k_pfx := %s |}", kindCode(k), coqPlainNList(o.KeyPrefixes[i]))
+		}
+
+		ksTerm = hx.CoqList(es)
 	}
 
 	pb := "[]"
@@ -698,9 +785,9 @@ func coqCase(c *Case, o *Obs, proof []byte) string {
 		}
 	}
 
-	return fmt.Sprintf("{| c_msgs := %s; c_R := %s; c_nonce := %d; c_key := %d; c_payload := %s; c_len := %d; c_proof := %s; c_intact := %s; c_kind := %s; c_keypfx := %s; c_pfx := %s; c_tr := %s; c_att := %s |}",
+	return fmt.Sprintf("{| c_msgs := %s; c_R := %s; c_nonce := %d; c_key := %d; c_payload := %s; c_len := %d; c_proof := %s; c_intact := %s; c_ks := %s; c_signer := %s; c_sigpfx := %s; c_pfx := %s; c_gd := %d; c_tr := %s; c_att := %s |}",
 		coqPlainNList(withLegacy(c.Msgs)), coqNatList(c.R), c.Nonce, c.Key, coqPlainNList(o.Payload), o.ProofLen, pb, hx.CoqBool(o.Intact),
-		kindCode, coqPlainNList(o.KeyPrefix), coqPlainNList(o.ProofPfx), hx.CoqList(trs), hx.CoqList(att))
+		ksTerm, hx.CoqNat(c.Signer), coqPlainNList(o.KeyPrefix), coqPlainNList(o.ProofPfx), o.GensDistinct, hx.CoqList(trs), hx.CoqList(att))
 }
 
 // ---------- generators ----------
@@ -1224,26 +1311,51 @@ func main() {
 		runCase("alter", c, tr)
 	}
 
-	// 8. Tink keysets of every output prefix type: the wrapper must accept only what this keyset's key produced
-	nPref := 10
-	if thorough {
-		nPref = 120
+	// 8. Tink keysets of 1..3 keys of every output prefix type (also mixed), primary first / last / middle, signed by
+	//    each key (a rotated keyset): the wrapper must accept exactly what a key of the keyset produced
+	type ksShape struct {
+		kinds           []string
+		primary, signer int
 	}
 
-	for _, kindP := range []string{"RAW", "TINK", "LEGACY", "CRUNCHY"} {
+	var shapes []ksShape
+
+	for _, k := range []string{"RAW", "TINK", "LEGACY", "CRUNCHY"} {
+		shapes = append(shapes, ksShape{[]string{k}, 0, 0})
+
+		for _, prim := range []int{0, 1} {
+			for sg := 0; sg < 2; sg++ {
+				shapes = append(shapes, ksShape{[]string{k, k}, prim, sg})
+			}
+		}
+
+		shapes = append(shapes, ksShape{[]string{k, k, k}, 2, 0}, ksShape{[]string{k, k, k}, 0, 2}, ksShape{[]string{k, k, k}, 1, 1})
+	}
+
+	shapes = append(shapes, ksShape{[]string{"RAW", "TINK"}, 1, 0}, ksShape{[]string{"TINK", "RAW"}, 1, 0},
+		ksShape{[]string{"LEGACY", "TINK", "CRUNCHY"}, 1, 0}, ksShape{[]string{"CRUNCHY", "RAW", "LEGACY"}, 0, 2},
+		ksShape{[]string{"TINK", "LEGACY"}, 0, 1})
+
+	nPref := 1
+	if thorough {
+		nPref = 12
+	}
+
+	for _, sh := range shapes {
 		for i := 0; i < nPref; i++ {
 			cnt++
 			r := rng.Fork(cnt)
 			n := 1 + r.Intn(9)
 
-			if i%5 == 4 {
+			if r.Intn(5) == 4 {
 				n = []int{7, 8, 15, 16, 23}[r.Intn(5)]
 			}
 
-			c := &Case{Level: "tinkp-" + kindP, Msgs: randomMsgs(r, n), R: shuffled(r, randomSubset(r, n)), Nonce: r.Intn(4), Key: r.Intn(2)}
+			c := &Case{Level: "tinkp", Kinds: sh.kinds, Primary: sh.primary, Signer: sh.signer, Msgs: randomMsgs(r, n),
+				R: shuffled(r, randomSubset(r, n)), Nonce: r.Intn(4), Key: r.Intn(2)}
 			c.Attacks = listAttacks(c, r)
 
-			if kindP != "RAW" {
+			if signerKind(c) != "RAW" {
 				for pos := 0; pos < 5; pos++ {
 					c.Attacks = append(c.Attacks, Attack{Kind: "prefix", Label: "prefix", Pos: pos, Byte: xorMask(r)})
 				}
@@ -1252,6 +1364,50 @@ func main() {
 			c.Attacks = append(c.Attacks, Attack{Kind: "garbage", Label: "garbage"}, Attack{Kind: "garbage", Label: "foreign-prefix", Pos: 5})
 			runCase("tink-prefix", c, tr)
 		}
+	}
+
+	// 9. vectors of more than 256 messages: the generator index needs more than one byte; reveal sets with positions
+	//    congruent modulo 255 / 256 / 257, revealed messages exchanged between such positions
+	longSizes := []int{257, 300}
+	if thorough {
+		longSizes = []int{257, 258, 300, 511, 513, 700}
+	}
+
+	for _, n := range longSizes {
+		cnt++
+		r := rng.Fork(cnt)
+		c := &Case{Level: "prim", Long: true, Msgs: randomMsgs(r, n), Nonce: r.Intn(4), Key: r.Intn(3)}
+		a := r.Intn(n - 257)
+		c.R = []int{a, a + 255, a + 256, a + 257, r.Intn(n), n - 1}
+
+		if n > 257 {
+			c.R = append(c.R, 0, 1, 256, 257)
+		}
+
+		inRange := c.R[:0]
+		for _, x := range c.R {
+			if x < n {
+				inRange = append(inRange, x)
+			}
+		}
+
+		c.R = dedup(inRange)
+		c.Attacks = listAttacks(c, r)
+		rv := revealedIDs(c)
+		rs := sortedCopy(c.R)
+
+		for x := 0; x < len(rs); x++ {
+			for y := x + 1; y < len(rs); y++ {
+				d := rs[y] - rs[x]
+				if (d == 255 || d == 256 || d == 257 || d == 1) && rv[x] != rv[y] {
+					sw := append([]int{}, rv...)
+					sw[x], sw[y] = sw[y], sw[x]
+					c.Attacks = append(c.Attacks, Attack{Kind: "supplied", Label: fmt.Sprintf("swapped-%d", d), Supplied: sw})
+				}
+			}
+		}
+
+		runCase("long", c, tr)
 	}
 
 	// 7. structurally crafted proofs and the verifier's challenge transcript
